@@ -439,6 +439,11 @@ impl Avp {
         let header = AvpHeader::decode_from(reader)?;
 
         let header_length = if header.flags.vendor { 12 } else { 8 };
+        if header.length < header_length {
+            return Err(Error::DecodeError(
+                "invalid avp, length is shorter than its header".into(),
+            ));
+        }
         let value_length = header.length - header_length;
 
         let avp_type = dict
